@@ -1,7 +1,404 @@
-//! C09 — not built yet (stub keeps the registry stable while modules are written in parallel).
+//! C09 — staged (macro) code means the same as the code it generates.
+//!
+//! A case is a staged program C[e] (quotes, splices, macro-stage functions / let / recursion /
+//! lift_f) together with its MANUAL expansion, which the harness computes by substitution over its
+//! own AST (`c09_stage.rs`) — the repository's expander is never consulted for the expectation.
 
-use crate::engine::case::Prop;
+use crate::engine::case::*;
+use crate::engine::rng::hash64;
+use crate::engine::tape::Gen;
+use crate::runners::exec::{self, canon, Exec, Inputs, RunOpts};
+use serde_json::{json, Value};
+use std::collections::BTreeSet;
+
+#[path = "c09_stage.rs"]
+mod stage;
+use stage::*;
+
+pub struct C09;
 
 pub fn prop() -> Option<&'static dyn Prop> {
+    Some(&C09)
+}
+
+const CTXS: &[&str] = &["quote-splice", "macro-fn", "code-param", "let-code", "recursion", "lift"];
+
+fn bx<T>(x: T) -> Box<T> {
+    Box::new(x)
+}
+
+enum Got {
+    Ran(Vec<Vec<u64>>, u32),
+    Rejected(String),
+    Panic(String, String),
+    Other(String),
+}
+
+fn got(e: Exec) -> Got {
+    match e {
+        Exec::Ran(r) => Got::Ran(r.samples, r.n_out),
+        Exec::Rejected(d) => Got::Rejected(d.iter().map(|x| x.message.clone()).collect::<Vec<_>>().join(" | ")),
+        Exec::Panic(stage, p) => Got::Panic(format!("{}:{}", if stage.starts_with("dsp@") { "dsp" } else { stage.as_str() }, p.signature()), format!("{stage}: {}", p.describe())),
+        Exec::NoIo => Got::Other("no dsp I/O information".into()),
+        Exec::Error(s, e) => Got::Other(format!("{s}: {e}")),
+    }
+}
+
+pub static T_VM: std::sync::atomic::AtomicU64 = std::sync::atomic::AtomicU64::new(0);
+pub static T_WASM: std::sync::atomic::AtomicU64 = std::sync::atomic::AtomicU64::new(0);
+fn vm(src: &str, n: u64) -> Got {
+    let t0 = std::time::Instant::now();
+    let r = vm_(src, n);
+    T_VM.fetch_add(t0.elapsed().as_micros() as u64, std::sync::atomic::Ordering::Relaxed);
+    r
+}
+fn vm_(src: &str, n: u64) -> Got {
+    got(exec::run_vm(src, &Inputs { kind: 0, scale: 1.0 }, &RunOpts { n, sched: false, want_state: false, want_counts: false, want_trace: false }))
+}
+fn wasm(src: &str, n: u64) -> Got {
+    let t0 = std::time::Instant::now();
+    let r = wasm_(src, n);
+    T_WASM.fetch_add(t0.elapsed().as_micros() as u64, std::sync::atomic::Ordering::Relaxed);
+    r
+}
+fn wasm_(src: &str, n: u64) -> Got {
+    got(exec::run_wasm(src, &Inputs { kind: 0, scale: 1.0 }, &RunOpts { n, sched: false, want_state: false, want_counts: false, want_trace: false }))
+}
+
+fn first_diff(a: &[Vec<u64>], b: &[Vec<u64>]) -> Option<String> {
+    if a.len() != b.len() {
+        return Some(format!("{} samples vs {}", a.len(), b.len()));
+    }
+    for (t, (x, y)) in a.iter().zip(b.iter()).enumerate() {
+        if x.len() != y.len() {
+            return Some(format!("sample {t}: {} channels vs {}", x.len(), y.len()));
+        }
+        for ch in 0..x.len() {
+            if canon(x[ch]) != canon(y[ch]) {
+                return Some(format!("sample {t} channel {ch}: {:?} ({:#x}) vs {:?} ({:#x})", f64::from_bits(x[ch]), x[ch], f64::from_bits(y[ch]), y[ch]));
+            }
+        }
+    }
     None
+}
+
+struct Outc {
+    fail: Option<(String, String)>,
+    discard: Option<String>,
+    varying: bool,
+    wasm_compared: bool,
+}
+
+/// The oracle on texts.
+fn judge(staged: &str, alt: Option<&str>, expanded: &str, n: u64, ctx: &str, expect: Option<u64>, wasm_leg: bool) -> Outc {
+    let mut o = Outc { fail: None, discard: None, varying: false, wasm_compared: false };
+    macro_rules! fail {
+        ($sig:expr, $($arg:tt)*) => {{ o.fail = Some((format!("c09:{}", $sig), format!($($arg)*))); return o; }};
+    }
+    // the hand expansion defines the expected meaning: if it has none, the case is outside the domain
+    let e = match vm(expanded, n) {
+        Got::Ran(s, _) => s,
+        Got::Rejected(d) => {
+            o.discard = Some(format!("expansion-rejected:{}", crate::engine::panics::normalise(&d)));
+            return o;
+        }
+        Got::Panic(sig, _) => {
+            o.discard = Some(format!("expansion-crashes:{sig}"));
+            return o;
+        }
+        Got::Other(w) => {
+            o.discard = Some(format!("expansion-unusable:{}", crate::engine::panics::normalise(&w)));
+            return o;
+        }
+    };
+    o.varying = e.iter().any(|s| *s != e[0]);
+    let s = match vm(staged, n) {
+        Got::Ran(s, _) => s,
+        Got::Rejected(d) => fail!("staged-rejected", "the hand expansion compiles and runs, the staged program is rejected: {d}"),
+        Got::Panic(sig, d) => fail!(format!("panic:{sig}"), "the hand expansion runs, the staged program panics at {d}"),
+        Got::Other(w) => fail!("staged-unusable", "the hand expansion runs, the staged program does not: {w}"),
+    };
+    if let Some(bits) = expect {
+        for (t, smp) in s.iter().enumerate() {
+            if smp.len() != 1 || canon(smp[0]) != canon(bits) {
+                fail!("lift-inexact", "sample {t}: dsp returns {:?}, the lifted macro-stage number is {:?} ({:#x})", smp.iter().map(|w| f64::from_bits(*w)).collect::<Vec<_>>(), f64::from_bits(bits), bits);
+            }
+        }
+    }
+    if let Some(d) = first_diff(&s, &e) {
+        fail!(format!("output-differs:{ctx}"), "staged program vs hand expansion (VM): {d}");
+    }
+    if let Some(a) = alt {
+        match vm(a, n) {
+            Got::Ran(sa, _) => {
+                if let Some(d) = first_diff(&sa, &s) {
+                    fail!("bang-vs-splice-differ", "f!(args) vs $(f(args)) (VM): {d}");
+                }
+            }
+            Got::Rejected(d) => fail!("bang-vs-splice-differ", "the program with f!(args) and $(f(args)) exchanged is rejected: {d}"),
+            Got::Panic(sig, d) => fail!(format!("panic:{sig}"), "the program with f!(args) and $(f(args)) exchanged panics at {d}"),
+            Got::Other(w) => fail!("bang-vs-splice-differ", "the program with f!(args) and $(f(args)) exchanged does not run: {w}"),
+        }
+    }
+    if wasm_leg {
+        // same backend on both sides, so backend defects cancel; anything the WASM backend cannot do
+        // with the plain expansion is not judged
+        if let Got::Ran(we, _) = wasm(expanded, n) {
+            o.wasm_compared = true;
+            match wasm(staged, n) {
+                Got::Ran(ws, _) => {
+                    if let Some(d) = first_diff(&ws, &we) {
+                        fail!(format!("wasm-output-differs:{ctx}"), "staged program vs hand expansion (WASM): {d}");
+                    }
+                }
+                Got::Rejected(d) => fail!("wasm-staged-rejected", "WASM: the hand expansion runs, the staged program is rejected: {d}"),
+                Got::Panic(sig, d) => fail!(format!("wasm-panic:{sig}"), "WASM: the hand expansion runs, the staged program panics at {d}"),
+                Got::Other(w) => fail!("wasm-staged-unusable", "WASM: the hand expansion runs, the staged program does not: {w}"),
+            }
+        }
+    }
+    o
+}
+
+struct GenCase {
+    ctx: &'static str,
+    case: Case,
+    expect: Option<f64>,
+    wasm_leg: bool,
+    n: u64,
+    /// also run the variant with f!(args) and $(f(args)) exchanged
+    check_alt: bool,
+    extra: Vec<String>,
+}
+
+fn lift_number(g: &mut Gen, extra: &mut Vec<String>) -> N {
+    let lit = |v: f64| N::Lit(v);
+    let bin = |op: &'static str, a: f64, b: f64| N::Bin(op, bx(N::Lit(a)), bx(N::Lit(b)));
+    let k = g.weighted(&[3, 3, 3, 3, 4, 1]);
+    let (label, n) = match k {
+        0 => ("lift:fractional", match g.usize_below(4) {
+            0 => lit(2.5),
+            1 => lit(0.1),
+            2 => lit(0.7071067811865476),
+            _ => bin("*", 1.5, 0.25),
+        }),
+        1 => ("lift:negative", match g.usize_below(4) {
+            0 => lit(-2.5),
+            1 => bin("-", 0.0, 0.1),
+            2 => bin("*", 3.0, -0.3333333333333333),
+            _ => lit(-123456.789),
+        }),
+        2 => ("lift:tiny", match g.usize_below(4) {
+            0 => lit(0.000001),
+            1 => bin("/", 1.0, 1000000.0),
+            2 => lit(0.0000000001234),
+            _ => bin("*", 0.000001, 0.000001),
+        }),
+        3 => ("lift:large", match g.usize_below(4) {
+            0 => lit(123456789.0),
+            1 => bin("*", 123456789.0, 1000.0),
+            2 => lit(9007199254740993.0),
+            _ => bin("+", 4294967296.0, 0.5),
+        }),
+        4 => ("lift:inexact-decimal", match g.usize_below(5) {
+            0 => bin("+", 0.1, 0.2),
+            1 => bin("/", 1.0, 3.0),
+            2 => bin("*", 0.1, 3.0),
+            3 => bin("-", 0.3, 0.1),
+            _ => N::Bin("/", bx(bin("+", 0.1, 0.7)), bx(N::Lit(7.0))),
+        }),
+        _ => ("lift:special", match g.usize_below(3) {
+            0 => bin("*", 0.0, -1.0),
+            1 => bin("/", 1.0, 0.0),
+            _ => bin("/", 0.0, 0.0),
+        }),
+    };
+    extra.push(label.to_string());
+    n
+}
+
+fn gen_case(g: &mut Gen) -> GenCase {
+    let ci = g.weighted(&[3, 3, 4, 3, 3, 2]);
+    let ctx = CTXS[ci];
+    let wasm_leg = g.bool(1, 10);
+    let n = *g.pick(&[4u64, 1, 2, 8, 3]);
+    let check_alt = g.bool(2, 3);
+    let mut extra = vec![];
+    if ctx == "lift" {
+        let num = lift_number(g, &mut extra);
+        let pipe = g.bool(1, 3);
+        let (fns, dsp) = match g.weighted(&[2, 2, 2]) {
+            0 => (vec![], X::Splice(bx(M::Lift(num.clone(), pipe)))),
+            1 => (vec![MFn { name: "lf0".into(), params: vec![], body: M::Lift(num.clone(), pipe) }], X::Splice(bx(M::Call("lf0".into(), vec![], g.coin())))),
+            _ => {
+                let k = *g.pick(&[1.0, 0.5, 3.0, 0.1]);
+                let op = *g.pick(&["*", "+", "/", "-"]);
+                (
+                    vec![MFn { name: "lf0".into(), params: vec![("n".into(), false)], body: M::Lift(N::Bin(op, bx(N::Var("n".into())), bx(N::Lit(k))), pipe) }],
+                    X::Splice(bx(M::Call("lf0".into(), vec![A::N(num.clone())], g.coin()))),
+                )
+            }
+        };
+        let case = Case { fns, kfn: None, dsp, lead_main: g.bool(1, 4) };
+        let expect = match expand(&case, false) {
+            Ok((_, X::Num(v))) => Some(v),
+            _ => None,
+        };
+        return GenCase { ctx, case, expect, wasm_leg, n, check_alt, extra };
+    }
+    let mut sg = SG::new(g, false);
+    sg.tuples = !wasm_leg;
+    sg.lam_templates = sg.g.coin();
+    let primary = match ctx {
+        "quote-splice" => Use::QuoteSplice,
+        "macro-fn" => sg.add_plain_macro(),
+        "code-param" => {
+            let mut u = sg.add_param_macro();
+            if sg.g.bool(1, 2) {
+                u = sg.add_param_macro();
+            }
+            u
+        }
+        "let-code" => {
+            if sg.g.bool(1, 3) {
+                Use::LetInline
+            } else {
+                sg.add_letcode_macro()
+            }
+        }
+        _ => sg.add_recursive_macro(),
+    };
+    sg.uses.push(primary);
+    if sg.g.bool(1, 5) {
+        let second = if sg.g.coin() { Use::QuoteSplice } else { sg.add_plain_macro() };
+        sg.uses.push(second);
+        extra.push("ctx:mixed".into());
+    }
+    let in_fn = sg.g.bool(1, 4);
+    let body = sg.top_body(in_fn);
+    let case = sg.finish(body, in_fn);
+    extra.push(if in_fn { "site:fn".into() } else { "site:dsp".into() });
+    GenCase { ctx, case, expect: None, wasm_leg, n, check_alt, extra }
+}
+
+fn finish(staged: &str, alt: Option<&str>, expanded: &str, n: u64, ctx: &str, expect: Option<u64>, wasm_leg: bool, classes: Vec<String>, nontrivial: bool, cx: &Cx) -> CaseResult {
+    let key = format!("{staged}\u{1}{n}");
+    let hash = hash64(key.as_bytes());
+    let direct = json!({"staged": staged, "alt": alt, "expanded": expanded, "n": n, "ctx": ctx, "expect_bits": expect, "wasm": wasm_leg});
+    if cx.dry {
+        let mut r = CaseResult::discard("dry");
+        r.render = Some(direct.clone());
+        r.direct = Some(direct);
+        return r;
+    }
+    let o = judge(staged, alt, expanded, n, ctx, expect, wasm_leg);
+    let tv = T_VM.swap(0, std::sync::atomic::Ordering::Relaxed);
+    let tw = T_WASM.swap(0, std::sync::atomic::Ordering::Relaxed);
+    if let Some(w) = &o.discard {
+        let mut r = CaseResult::discard(w.split(':').next().unwrap_or("discard").to_string());
+        r.count(&format!("discard:{w}"), 1);
+        r.direct = Some(direct);
+        return r;
+    }
+    let mut r = match &o.fail {
+        Some((s, m)) => CaseResult::fail(hash, s.clone(), m.clone()),
+        None => CaseResult::held(hash),
+    };
+    r.classes = classes;
+    r.classes.push("compiled".into());
+    if o.varying {
+        r.classes.push("output-varies".into());
+    }
+    if o.wasm_compared {
+        r.classes.push("wasm-leg-compared".into());
+    }
+    r.nontrivial = nontrivial || r.is_fail();
+    r.count("TIMING_vm_us", tv);
+    r.count("TIMING_wasm_us", tw);
+    if cx.render || r.is_fail() {
+        r.render = Some(direct.clone());
+    }
+    r.direct = Some(direct);
+    r
+}
+
+impl Prop for C09 {
+    fn id(&self) -> &'static str {
+        "C09"
+    }
+    fn spaces(&self, tier: Tier) -> Vec<Space> {
+        let what = "staging contexts (quote-splice, macro function, code parameters, macro-stage let of code, numeric recursion, lift_f) x generated stage-1 expressions x use sites";
+        match tier {
+            Tier::Quick => vec![Space { name: "gen", size: 3000, exhaustive: false, chunk: 100, case_timeout_s: 30.0, what }],
+            Tier::Thorough => vec![Space { name: "gen", size: 100_000, exhaustive: false, chunk: 250, case_timeout_s: 30.0, what }],
+        }
+    }
+    fn run(&self, _space: &str, _index: u64, g: &mut Gen, cx: &Cx) -> CaseResult {
+        let gc = gen_case(g);
+        let (k, d) = match expand(&gc.case, false) {
+            Ok(v) => v,
+            Err(e) => return CaseResult::discard(format!("generator:{e}")),
+        };
+        let staged = render_staged(&gc.case, false);
+        let mut sites = (0u32, 0u32);
+        if let Some(kf) = &gc.case.kfn {
+            count_sites(kf, &mut sites);
+        }
+        count_sites(&gc.case.dsp, &mut sites);
+        let alt = if sites.0 + sites.1 > 0 && gc.check_alt { Some(render_staged(&gc.case, true)) } else { None };
+        let expanded = render_plain(&k, &d);
+        // class labels
+        let mut forms: BTreeSet<&'static str> = BTreeSet::new();
+        if let Some(kf) = &gc.case.kfn {
+            forms_x(kf, false, &mut forms);
+        }
+        forms_x(&gc.case.dsp, false, &mut forms);
+        for f in &gc.case.fns {
+            forms_m(&f.body, &mut forms);
+        }
+        let mut classes: Vec<String> = forms.iter().map(|s| s.to_string()).collect();
+        classes.push(format!("ctx:{}", gc.ctx));
+        classes.extend(gc.extra.iter().cloned());
+        if sites.0 > 0 {
+            classes.push("use:bang".into());
+        }
+        if sites.1 > 0 {
+            classes.push("use:splice".into());
+        }
+        let tuple_free = !(has_tuple(&d) || k.as_ref().map(has_tuple).unwrap_or(false));
+        let wasm_leg = gc.wasm_leg && tuple_free;
+        if wasm_leg {
+            classes.push("wasm-leg".into());
+        }
+        let nonleaf = forms.iter().filter(|f| !LEAF_FORMS.contains(f)).count();
+        let nontrivial = if gc.ctx == "lift" { !gc.extra.is_empty() } else { forms.len() >= 2 && nonleaf >= 1 };
+        finish(&staged, alt.as_deref(), &expanded, gc.n, gc.ctx, gc.expect.map(|v| v.to_bits()), wasm_leg, classes, nontrivial, cx)
+    }
+    fn run_direct(&self, input: &Value, cx: &Cx) -> Option<CaseResult> {
+        let staged = input.get("staged")?.as_str()?;
+        let expanded = input.get("expanded")?.as_str()?;
+        let alt = input.get("alt").and_then(|v| v.as_str());
+        let n = input.get("n").and_then(|v| v.as_u64()).unwrap_or(4);
+        let ctx = input.get("ctx").and_then(|v| v.as_str()).unwrap_or("direct");
+        let expect = input.get("expect_bits").and_then(|v| v.as_u64());
+        let wasm_leg = input.get("wasm").and_then(|v| v.as_bool()).unwrap_or(false);
+        Some(finish(staged, alt, expanded, n, ctx, expect, wasm_leg, vec!["mode:direct".into()], true, cx))
+    }
+    fn rule(&self) -> String {
+        "A case is (staged program, manual expansion, optional variant with every f!(args) and $(f(args)) exchanged, run length 1-8). The generator draws a staging context — (1) $(`e) in place, (2) `fn m(){ `e }` used as m!() / $(m()), (3) macros with 1-3 code parameters applied to quoted use-site code (optionally through another macro: function application at the macro stage), (4) macro-stage `let c = `e` with c spliced one or more times (in a macro function or in a `${ ... }` block), (5) numeric recursion building code (power-style, optionally returning the code of a function that the use site applies, optionally lifting the counter), (6) lift_f of macro-stage numbers (fractional, negative, tiny, large, not exactly representable in short decimal, -0/inf/NaN) — and stage-1 expressions over arithmetic, comparisons, builtins, let (single, tuple and nested tuple patterns), if, lambdas applied in place and let-bound, tuples/projection, self, mem and calls of pure and stateful stage-1 helpers. Binder names are globally unique, so the manual expansion is plain substitution computed by the harness over its own AST (never by the repository's expander). Oracle (VM): the expansion must compile and run (else discard); then the staged program must compile, and every output word of every sample must be bitwise equal (NaN = NaN) to the expansion's; for context (6) dsp's output must equal the number the harness computes with the same f64 operations; the exchanged variant (run for 2/3 of the cases) must produce the same output. Secondary, labelled c09:wasm-*: the same staged-vs-expansion comparison on the WASM backend for 1/10 of the cases, tuple-free programs only, only when the plain expansion runs there. Non-trivial = >= 2 distinct AST forms (at least one non-leaf) occur inside a quote; for (6) every case. Distinct by staged source + run length.".into()
+    }
+    fn assumptions(&self) -> Vec<String> {
+        vec![
+            "the manual expansion is trusted: substitution over the harness AST with globally unique binder names (capture is C10's subject)".into(),
+            "macro-stage arithmetic is + - * / on f64, evaluated by the harness with the same IEEE operations".into(),
+            "a bare `self` is generated inside a quote only where the enclosing function is unambiguous: in a quote spliced in place, inside a quoted lambda, or in argument code when no template of the case puts its holes under a lambda".into(),
+            "cases whose plain expansion is rejected or crashes are discarded (counted under discard:*), they say nothing about staging".into(),
+        ]
+    }
+    fn required_classes(&self, _tier: Tier) -> Vec<&'static str> {
+        vec![
+            "compiled", "output-varies", "ctx:quote-splice", "ctx:macro-fn", "ctx:code-param", "ctx:let-code", "ctx:recursion", "ctx:lift", "q:binop", "q:compare", "q:if", "q:let", "q:let-tuple", "q:let-nested-tuple", "q:lambda", "q:apply", "q:let-fn",
+            "q:call", "q:stateful-call", "q:builtin", "q:self", "q:mem", "q:tuple", "q:proj", "q:splice", "use:bang", "use:splice", "site:fn", "site:dsp", "lift:fractional", "lift:negative", "lift:tiny", "lift:large", "lift:inexact-decimal", "wasm-leg-compared",
+        ]
+    }
 }
